@@ -101,6 +101,16 @@ func scenarios() []scenario {
 			prio(7, h2wire.Prio{Dep: 5, Excl: true, Weight: 200}),
 			hdrs(3, &h2wire.Prio{Dep: 1, Excl: true, Weight: 41}, ":method", ":authority", ":scheme", ":path"),
 		}},
+		{"three-streams", []step{
+			settings(h2wire.Setting{ID: 1, Val: 65536}),
+			hdrs(1, nil, ":method", ":scheme", ":path", ":authority"),
+			prio(9, h2wire.Prio{Dep: 0, Weight: 1}),
+			hdrs(3, &h2wire.Prio{Dep: 1, Weight: 7}, ":path", ":method", ":scheme", ":authority"),
+			settings(h2wire.Setting{ID: 3, Val: 5}),
+			wu(0, 99),
+			hdrs(5, &h2wire.Prio{Dep: 3, Excl: true, Weight: 70}, ":authority", ":path", ":method", ":scheme"),
+			prio(11, h2wire.Prio{Dep: 9, Weight: 2}),
+		}},
 		{"wu-then-settings", []step{
 			settings(),
 			hdrs(1, &h2wire.Prio{Dep: 0, Weight: 255}, ":method", ":scheme", ":path", ":authority"),
@@ -272,7 +282,11 @@ func TestCheck(t *testing.T) {
 	rep.Assume("interleavings are controlled at the vhook gates (capture stores, Marshal sections); code between two gates runs atomically with respect to other gated goroutines",
 		"memory-model races are not visible to the cooperative scheduler; they are looked for by the separate free-running -race pass (TestRace), which is a detector, not an enumeration")
 	for _, sc := range scenarios() {
-		e := &mc.Explorer{Bound: bound, Shard: shard, Of: of, Deadline: time.Now().Add(budget)}
+		b := bound
+		if sc.name == "three-streams" && !ev.Thorough() {
+			b = 2
+		}
+		e := &mc.Explorer{Bound: b, Shard: shard, Of: of, Deadline: time.Now().Add(budget)}
 		func() {
 			defer func() {
 				if r := recover(); r != nil {
